@@ -51,16 +51,19 @@ pub struct GenOpts {
     pub error_values: bool,
     pub formula_cached_non_text: bool,
     pub annotations: bool,
+    /// C06: up to 6 sheets and a second pass (`enrich`) adding 0..dozens of every annotation kind.
+    /// Off by default: the random stream of the other users (C02) is unchanged.
+    pub rich: bool,
 }
 impl Default for GenOpts {
     fn default() -> Self {
-        GenOpts { error_values: true, formula_cached_non_text: true, annotations: true }
+        GenOpts { error_values: true, formula_cached_non_text: true, annotations: true, rich: false }
     }
 }
 
 pub fn gen_book(rng: &mut Rng, o: &GenOpts) -> Spreadsheet {
     let mut book = umya_spreadsheet::new_file_empty_worksheet();
-    let n_sheets = rng.range(1, 4) as usize;
+    let n_sheets = rng.range(1, if o.rich { 6 } else { 4 }) as usize;
     let mut names: Vec<String> = vec![];
     for _ in 0..n_sheets {
         let n = sheet_name(rng, &names);
@@ -226,6 +229,9 @@ pub fn gen_book(rng: &mut Rng, o: &GenOpts) -> Spreadsheet {
         let _ = book.get_sheet_mut(&0).unwrap().add_defined_name(name, addr);
     }
     book.set_active_sheet(rng.below(n_sheets as u64) as u32);
+    if o.rich {
+        enrich(&mut book, rng, &names);
+    }
     book
 }
 
@@ -308,4 +314,685 @@ pub fn save_bytes(book: &Spreadsheet, light: bool) -> Result<Vec<u8>, String> {
 
 pub fn is_xml_part(name: &str) -> bool {
     name.ends_with(".xml") || name.ends_with(".rels") || name.ends_with(".vml")
+}
+
+// ---------------------------------------------------------------------------------------------
+// C06: rich annotations and the full annotation dump
+// ---------------------------------------------------------------------------------------------
+
+pub const AUTHORS: &[&str] = &["", "Ann", "Bob & Co", "<é>", "A\"q\"", " lead", "日本", "it's", "Ann ", "x"];
+const ANNOT_TEXT: &str = "ab AZ09&<>\"'\n\t,;=é日😀]]>\u{a0}";
+
+fn cell_ref(rng: &mut Rng, lock: bool) -> String {
+    let c = rng.range(1, 30) as u32;
+    let r = rng.range(1, 60) as u32;
+    let a = coordinate_from_index(&c, &r);
+    if !lock {
+        return a;
+    }
+    let (letters, digits): (String, String) = (a.chars().filter(|x| x.is_ascii_alphabetic()).collect(), a.chars().filter(|x| x.is_ascii_digit()).collect());
+    format!("{}{}{}{}", if rng.chance(2, 3) { "$" } else { "" }, letters, if rng.chance(2, 3) { "$" } else { "" }, digits)
+}
+
+fn range_ref(rng: &mut Rng, lock: bool) -> String {
+    if rng.chance(1, 3) {
+        cell_ref(rng, lock)
+    } else {
+        let c = rng.range(1, 20) as u32;
+        let r = rng.range(1, 40) as u32;
+        let c2 = c + rng.range(0, 6) as u32;
+        let r2 = r + rng.range(0, 9) as u32;
+        let d = if lock && rng.chance(2, 3) { "$" } else { "" };
+        format!("{d}{}{d}{}:{d}{}{d}{}", umya_spreadsheet::helper::coordinate::string_from_column_index(&c), r, umya_spreadsheet::helper::coordinate::string_from_column_index(&c2), r2)
+    }
+}
+
+/// the text of a defined name as a user / Excel would hand it over
+pub fn defined_name_text(rng: &mut Rng, names: &[String]) -> String {
+    let pick = |rng: &mut Rng| quote_sheet(&names[rng.below(names.len() as u64) as usize]);
+    match rng.below(16) {
+        0..=7 => {
+            // 1..3 cell areas
+            let n = if rng.chance(2, 3) { 1 } else { rng.range(2, 3) };
+            (0..n).map(|_| format!("{}!{}", pick(rng), range_ref(rng, true))).collect::<Vec<_>>().join(",")
+        }
+        8 => format!("{}!$A:$B", pick(rng)),
+        9 => format!("{}!$1:$3", pick(rng)),
+        10 => {
+            let s = pick(rng);
+            format!("{s}!$A:$B,{s}!$1:$2")
+        }
+        11 => "\"text, with comma\"".to_string(),
+        12 => {
+            let s = pick(rng);
+            format!("OFFSET({s}!$A$1,0,0,COUNTA({s}!$A:$A),1)")
+        }
+        13 => "IF(Sheet1!$A$1=\"x\",1,2)".to_string(),
+        14 => rng.pick(&["1.5", "#REF!", "TRUE", "Sheet1!$A$1*2", "\"a\"&\"b\""]).to_string(),
+        _ => format!("{}!{},{}!$C:$C", pick(rng), range_ref(rng, true), pick(rng)),
+    }
+}
+
+fn rich_hyperlink(rng: &mut Rng, names: &[String]) -> Hyperlink {
+    let mut h = Hyperlink::default();
+    match rng.below(6) {
+        0..=2 => {
+            h.set_url(format!("https://example.com/{}?a={}&b=<{}>", rand_text(rng, "az09é'\" ", 0, 5), rng.below(1000), rng.below(10)));
+        }
+        3 => {
+            h.set_url(format!("mailto:{}@example.com?subject=a%20b&body={}", rand_text(rng, "az", 1, 4), rng.below(100)));
+        }
+        4 => {
+            h.set_url(format!("file:///C:/dir {}/x&y.xlsx", rng.below(50)));
+        }
+        _ => {
+            let tgt = names[rng.below(names.len() as u64) as usize].clone();
+            h.set_url(format!("{}!{}", quote_sheet(&tgt), cell_ref(rng, false)));
+            h.set_location(true);
+        }
+    }
+    if rng.chance(1, 2) {
+        h.set_tooltip(rand_text(rng, "tip &<>\"'é ", 1, 8));
+    }
+    h
+}
+
+/// second generation pass: 0..dozens of every annotation kind on every sheet
+pub fn enrich(book: &mut Spreadsheet, rng: &mut Rng, names: &[String]) {
+    let n_sheets = names.len();
+    for si in 0..n_sheets {
+        let dense = rng.chance(1, 3);
+        let many = |rng: &mut Rng, small: u64, big: u64| if dense { rng.range(0, big) } else { rng.below(small + 1) };
+        let ws = book.get_sheet_mut(&si).unwrap();
+        // hyperlinks
+        for _ in 0..many(rng, 3, 40) {
+            let (c, r) = (rng.range(1, 12) as u32, rng.range(1, 30) as u32);
+            let h = rich_hyperlink(rng, names);
+            let cell = ws.get_cell_mut((c, r));
+            if cell.get_value().is_empty() && rng.chance(1, 2) {
+                cell.set_value_string("link");
+            }
+            cell.set_hyperlink(h);
+        }
+        // comments
+        let pool: Vec<&str> = (0..rng.range(1, 5)).map(|_| *rng.pick(AUTHORS)).collect();
+        for _ in 0..many(rng, 2, 30) {
+            let mut c = Comment::default();
+            c.new_comment((rng.range(1, 10) as u32, rng.range(1, 40) as u32));
+            c.set_author(*rng.pick(&pool));
+            if rng.chance(1, 4) {
+                let mut rt = RichText::default();
+                for _ in 0..rng.range(1, 3) {
+                    let mut te = TextElement::default();
+                    te.set_text(rand_text(rng, ANNOT_TEXT, 1, 6));
+                    if rng.chance(1, 2) {
+                        te.get_font_mut().set_bold(true);
+                    }
+                    rt.add_rich_text_elements(te);
+                }
+                c.set_text(rt);
+            } else {
+                c.set_text_string(rand_text(rng, ANNOT_TEXT, 0, 12));
+            }
+            ws.add_comments(c);
+        }
+        // merges (disjoint from the base generator's bands: rows from 100)
+        let mut row = 100u32;
+        for _ in 0..many(rng, 2, 36) {
+            let h = rng.range(0, 3) as u32;
+            let c = rng.range(1, 9) as u32;
+            let w = rng.range(if h == 0 { 1 } else { 0 }, 4) as u32;
+            ws.add_merge_cells(format!("{}:{}", coordinate_from_index(&c, &row), coordinate_from_index(&(c + w), &(row + h))));
+            row += h + 1 + rng.below(2) as u32;
+        }
+        // data validations
+        let ndv = many(rng, 2, 14);
+        if ndv > 0 {
+            let mut dvs = match ws.get_data_validations() {
+                Some(d) => d.clone(),
+                None => DataValidations::default(),
+            };
+            for _ in 0..ndv {
+                let mut dv = DataValidation::default();
+                match rng.below(6) {
+                    0 => {
+                        dv.set_type(DataValidationValues::List);
+                        dv.set_formula1(*rng.pick(&["\"a,b,<c>\"", "\"x&y,\"\"q\"\"\"", "$A$1:$A$9", "'It''s'!$B$1:$B$4", "Names"]));
+                    }
+                    1 => {
+                        dv.set_type(DataValidationValues::Whole);
+                        dv.set_operator(rng.pick(&[DataValidationOperatorValues::Between, DataValidationOperatorValues::NotBetween]).clone());
+                        dv.set_formula1(rng.below(10).to_string());
+                        dv.set_formula2((10 + rng.below(100)).to_string());
+                    }
+                    2 => {
+                        dv.set_type(DataValidationValues::Decimal);
+                        dv.set_operator(rng.pick(&[DataValidationOperatorValues::GreaterThan, DataValidationOperatorValues::LessThanOrEqual, DataValidationOperatorValues::NotEqual, DataValidationOperatorValues::Equal, DataValidationOperatorValues::GreaterThanOrEqual, DataValidationOperatorValues::LessThan]).clone());
+                        dv.set_formula1("1.5");
+                    }
+                    3 => {
+                        dv.set_type(DataValidationValues::Custom);
+                        dv.set_formula1(*rng.pick(&["AND(A1<>\"\",A1>B1)", "LEN(A1)<5", "A1&\"<x>\"=\"a&b\"", "ISNUMBER(FIND(\"'\",A1))"]));
+                    }
+                    4 => {
+                        dv.set_type(rng.pick(&[DataValidationValues::TextLength, DataValidationValues::Date, DataValidationValues::Time]).clone());
+                        dv.set_operator(DataValidationOperatorValues::LessThan);
+                        dv.set_formula1("40000");
+                    }
+                    _ => {
+                        dv.set_type(DataValidationValues::None);
+                    }
+                }
+                if rng.chance(1, 2) {
+                    dv.set_allow_blank(rng.chance(1, 2));
+                }
+                if rng.chance(1, 2) {
+                    dv.set_show_input_message(rng.chance(2, 3));
+                    dv.set_prompt_title(rand_text(rng, "Title &<>\"'é", 0, 8));
+                    dv.set_prompt(rand_text(rng, ANNOT_TEXT, 0, 14));
+                }
+                if rng.chance(1, 2) {
+                    dv.set_show_error_message(rng.chance(2, 3));
+                    dv.set_error_title(rand_text(rng, "Err &<>\"'", 0, 8));
+                    dv.set_error_message(rand_text(rng, ANNOT_TEXT, 0, 14));
+                }
+                let nr = rng.range(1, 3);
+                let sq: Vec<String> = (0..nr).map(|_| range_ref(rng, false)).collect();
+                dv.get_sequence_of_references_mut().set_sqref(sq.join(" "));
+                dvs.add_data_validation_list(dv);
+            }
+            ws.set_data_validations(dvs);
+        }
+        // conditional formats
+        let mut prio = 10;
+        for _ in 0..many(rng, 2, 12) {
+            let mut f = ConditionalFormatting::default();
+            let nr = rng.range(1, 3);
+            let sq: Vec<String> = (0..nr).map(|_| range_ref(rng, false)).collect();
+            f.get_sequence_of_references_mut().set_sqref(sq.join(" "));
+            for _ in 0..rng.range(1, 3) {
+                let mut rule = ConditionalFormattingRule::default();
+                prio += 1;
+                rule.set_priority(prio);
+                let mut with_style = true;
+                match rng.below(8) {
+                    0 => {
+                        rule.set_type(ConditionalFormatValues::CellIs);
+                        rule.set_operator(rng.pick(&[ConditionalFormattingOperatorValues::GreaterThan, ConditionalFormattingOperatorValues::LessThan, ConditionalFormattingOperatorValues::Equal, ConditionalFormattingOperatorValues::NotEqual]).clone());
+                        let mut fm = Formula::default();
+                        fm.set_string_value(*rng.pick(&["5", "\"a&b\"", "\"<x>\"", "$A$1", "'It''s'!$A$1", "LEN(\"\"\"\")"]));
+                        rule.set_formula(fm);
+                    }
+                    1 => {
+                        rule.set_type(ConditionalFormatValues::Expression);
+                        let mut fm = Formula::default();
+                        fm.set_string_value(*rng.pick(&["AND($A1<>\"\",$B1>3)", "A1&\"<>\"=\"x\"", "MOD(ROW(),2)=0", "ISERROR(A1)"]));
+                        rule.set_formula(fm);
+                        rule.set_stop_if_true(rng.chance(1, 2));
+                    }
+                    2 => {
+                        rule.set_type(ConditionalFormatValues::ContainsText);
+                        rule.set_operator(ConditionalFormattingOperatorValues::ContainsText);
+                        let t = rand_text(rng, "ab&<\"'é", 1, 5);
+                        rule.set_text(t);
+                        let mut fm = Formula::default();
+                        fm.set_string_value("NOT(ISERROR(SEARCH(\"a\",A1)))");
+                        rule.set_formula(fm);
+                    }
+                    3 => {
+                        rule.set_type(ConditionalFormatValues::Top10);
+                        rule.set_rank(rng.range(1, 20) as u32);
+                        rule.set_percent(rng.chance(1, 2));
+                        rule.set_bottom(rng.chance(1, 2));
+                    }
+                    4 => {
+                        rule.set_type(ConditionalFormatValues::AboveAverage);
+                        rule.set_above_average(rng.chance(1, 2));
+                        rule.set_equal_average(rng.chance(1, 2));
+                        if rng.chance(1, 2) {
+                            rule.set_std_dev(rng.range(1, 3) as i32);
+                        }
+                    }
+                    5 => {
+                        rule.set_type(ConditionalFormatValues::TimePeriod);
+                        rule.set_time_period(rng.pick(&[TimePeriodValues::Today, TimePeriodValues::LastWeek, TimePeriodValues::NextMonth, TimePeriodValues::Last7Days]).clone());
+                    }
+                    6 => {
+                        rule.set_type(rng.pick(&[ConditionalFormatValues::DuplicateValues, ConditionalFormatValues::UniqueValues, ConditionalFormatValues::ContainsBlanks, ConditionalFormatValues::NotContainsErrors]).clone());
+                    }
+                    _ => {
+                        rule.set_type(ConditionalFormatValues::BeginsWith);
+                        rule.set_operator(ConditionalFormattingOperatorValues::BeginsWith);
+                        rule.set_text(rand_text(rng, "xy&<", 1, 3));
+                        with_style = rng.chance(1, 2);
+                    }
+                }
+                if with_style {
+                    let mut st = Style::default();
+                    st.set_background_color(*rng.pick(&["FFFF0000", "FF00FF00", "FF0000FF", "FFFFFF00"]));
+                    if rng.chance(1, 3) {
+                        st.get_font_mut().set_bold(true);
+                    }
+                    rule.set_style(st);
+                }
+                f.add_conditional_collection(rule);
+            }
+            ws.add_conditional_formatting_collection(f);
+        }
+        // auto filter
+        if rng.chance(1, 2) {
+            ws.set_auto_filter(range_ref(rng, false));
+        }
+        // tab colour
+        match rng.below(6) {
+            0 => {
+                ws.get_tab_color_mut().set_argb(*rng.pick(&["FF00AA55", "FFFF0000", "80123456", "FFFFFFFF"]));
+            }
+            1 => {
+                ws.get_tab_color_mut().set_theme_index(rng.range(0, 9) as u32);
+                if rng.chance(1, 2) {
+                    ws.get_tab_color_mut().set_tint(*rng.pick(&[0.5, -0.25, 0.3999, -0.0999786370433668]));
+                }
+            }
+            2 => {
+                ws.get_tab_color_mut().set_indexed(rng.range(0, 63) as u32);
+            }
+            _ => {}
+        }
+        // sheet view: panes, selection
+        if rng.chance(2, 3) {
+            let mut sv = SheetView::default();
+            sv.set_workbook_view_id(0);
+            if rng.chance(1, 3) {
+                sv.set_tab_selected(true);
+            }
+            if rng.chance(1, 4) {
+                sv.set_zoom_scale(rng.range(10, 400) as u32);
+            }
+            if rng.chance(1, 5) {
+                sv.set_view(rng.pick(&[SheetViewValues::PageBreakPreview, SheetViewValues::PageLayout, SheetViewValues::Normal]).clone());
+            }
+            if rng.chance(1, 5) {
+                sv.set_show_grid_lines(false);
+            }
+            if rng.chance(1, 4) {
+                sv.set_top_left_cell(cell_ref(rng, false));
+            }
+            let paned = rng.chance(1, 2);
+            if paned {
+                let mut p = Pane::default();
+                let (x, y) = (rng.below(4) as f64, rng.below(6) as f64);
+                let frozen = rng.chance(3, 4);
+                if frozen {
+                    p.set_horizontal_split(x);
+                    p.set_vertical_split(y);
+                    p.set_state(rng.pick(&[PaneStateValues::Frozen, PaneStateValues::FrozenSplit]).clone());
+                } else {
+                    p.set_horizontal_split(x * 1234.5);
+                    p.set_vertical_split(y * 600.0);
+                    p.set_state(PaneStateValues::Split);
+                }
+                let mut tl = Coordinate::default();
+                tl.set_col_num(x as u32 + 1).set_row_num(y as u32 + 1);
+                p.set_top_left_cell(tl);
+                p.set_active_pane(rng.pick(&[PaneValues::BottomLeft, PaneValues::BottomRight, PaneValues::TopLeft, PaneValues::TopRight]).clone());
+                sv.set_pane(p);
+            }
+            for k in 0..rng.range(0, if paned { 3 } else { 1 }) {
+                let mut sel = Selection::default();
+                if paned {
+                    sel.set_pane([PaneValues::TopRight, PaneValues::BottomLeft, PaneValues::BottomRight, PaneValues::TopLeft].get(k as usize).unwrap().clone());
+                }
+                let mut ac = Coordinate::default();
+                let (c, r) = (rng.range(1, 20) as u32, rng.range(1, 50) as u32);
+                ac.set_col_num(c).set_row_num(r);
+                sel.set_active_cell(ac);
+                let a = coordinate_from_index(&c, &r);
+                let sq = if rng.chance(1, 2) { a } else { format!("{}:{} {}", a, coordinate_from_index(&(c + 2), &(r + 3)), range_ref(rng, false)) };
+                sel.get_sequence_of_references_mut().set_sqref(sq);
+                sv.set_selection(sel);
+            }
+            ws.get_sheet_views_mut().add_sheet_view_list_mut(sv);
+        }
+        if rng.chance(1, 4) {
+            ws.set_active_cell(cell_ref(rng, false));
+        }
+        // page setup, margins, print options
+        if rng.chance(1, 2) {
+            let ps = ws.get_page_setup_mut();
+            if rng.chance(2, 3) {
+                ps.set_orientation(rng.pick(&[OrientationValues::Landscape, OrientationValues::Portrait, OrientationValues::Default]).clone());
+            }
+            if rng.chance(2, 3) {
+                ps.set_paper_size(*rng.pick(&[1u32, 8, 9, 11, 256]));
+            }
+            if rng.chance(1, 3) {
+                ps.set_scale(rng.range(10, 400) as u32);
+            }
+            if rng.chance(1, 3) {
+                ps.set_fit_to_height(rng.range(0, 5) as u32);
+                ps.set_fit_to_width(rng.range(0, 5) as u32);
+            }
+            if rng.chance(1, 4) {
+                ps.set_horizontal_dpi(*rng.pick(&[300u32, 600, 4294967295]));
+                ps.set_vertical_dpi(*rng.pick(&[300u32, 600]));
+            }
+        }
+        if rng.chance(1, 3) {
+            let m = ws.get_page_margins_mut();
+            m.set_left(0.25).set_right(0.7086614173228347).set_top(1.0).set_bottom(0.75).set_header(0.3).set_footer(0.31496062992125984);
+        }
+        if rng.chance(1, 4) {
+            ws.get_print_options_mut().set_horizontal_centered(rng.chance(1, 2)).set_vertical_centered(rng.chance(1, 2));
+        }
+        // header / footer
+        if rng.chance(1, 2) {
+            let t = match rng.below(5) {
+                0 => "&L&\"Arial,Bold\"&12Left&C&P of &N&R&D &T".to_string(),
+                1 => format!("&C{}", rand_text(rng, "Hdr &<>\"'é&", 1, 8)),
+                2 => "&CTitle with trailing blank ".to_string(),
+                3 => " &Lleading blank".to_string(),
+                _ => "&L&&amp; && &A &F\n2nd line".to_string(),
+            };
+            ws.get_header_footer_mut().get_odd_header_mut().set_value(t);
+        }
+        if rng.chance(1, 3) {
+            let t = format!("&R{}&Z&F", rand_text(rng, "Ftr &<é", 0, 6));
+            ws.get_header_footer_mut().get_odd_footer_mut().set_value(t);
+        }
+        // sheet protection
+        if rng.chance(1, 3) {
+            let p = ws.get_sheet_protection_mut();
+            p.set_sheet(rng.chance(3, 4));
+            macro_rules! flag { ($($f:ident),*) => { $( if rng.chance(1, 3) { p.$f(rng.chance(1, 2)); } )* } }
+            flag!(set_objects, set_scenarios, set_format_cells, set_format_columns, set_format_rows, set_insert_columns, set_insert_rows, set_insert_hyperlinks, set_delete_columns, set_delete_rows, set_select_locked_cells, set_sort, set_auto_filter, set_pivot_tables, set_select_unlocked_cells);
+            match rng.below(6) {
+                0 => {
+                    p.set_password(*rng.pick(&["secret", "pä&ss<w>", ""]));
+                }
+                1 => {
+                    p.set_algorithm_name("SHA-512").set_hash_value("q1+a/bcd==").set_salt_value("c2FsdA==").set_spin_count(100000);
+                }
+                2 => {
+                    p.set_password_raw("CC1A");
+                }
+                _ => {}
+            }
+        }
+        // more defined names, scoped to this sheet (localSheetId) or not
+        for k in 0..many(rng, 2, 12) {
+            let name = match rng.below(8) {
+                0 => "_xlnm.Print_Area".to_string(),
+                1 => "_xlnm.Print_Titles".to_string(),
+                2 => format!("Nm_é{}_{}", si, k),
+                _ => format!("N{}_{}.x", si, k),
+            };
+            let local = name.starts_with("_xlnm") || rng.chance(1, 3);
+            let text = defined_name_text(rng, names);
+            if ws.get_defined_names().iter().any(|d| d.get_name() == name) {
+                continue;
+            }
+            let _ = ws.add_defined_name(name, text);
+            let d = ws.get_defined_names_mut().last_mut().unwrap();
+            if local {
+                d.set_local_sheet_id(si as u32);
+            }
+            if rng.chance(1, 6) {
+                d.set_hidden(true);
+            }
+        }
+        if rng.chance(1, 4) {
+            ws.set_state(rng.pick(&[SheetStateValues::Hidden, SheetStateValues::VeryHidden, SheetStateValues::Visible]).clone());
+        }
+    }
+    // workbook-level names kept in the workbook's own list
+    for k in 0..rng.below(4) {
+        let mut d = DefinedName::default();
+        d.set_address(defined_name_text(rng, names));
+        // `set_name` is crate-private: go through a scratch worksheet
+        let mut tmp = Worksheet::default();
+        let _ = tmp.add_defined_name(format!("W{}", k), d.get_address());
+        if let Some(x) = tmp.get_defined_names().first() {
+            book.add_defined_names(x.clone());
+        }
+    }
+    // workbook protection
+    if rng.chance(1, 4) {
+        let p = book.get_workbook_protection_mut();
+        p.set_lock_structure(rng.chance(2, 3));
+        if rng.chance(1, 2) {
+            p.set_lock_windows(rng.chance(1, 2));
+        }
+        if rng.chance(1, 3) {
+            p.set_lock_revision(rng.chance(1, 2));
+        }
+        match rng.below(5) {
+            0 => {
+                p.set_workbook_password("book-pw");
+            }
+            1 => {
+                p.set_workbook_algorithm_name("SHA-512").set_workbook_hash_value("aGFzaA==").set_workbook_salt_value("c2FsdA==").set_workbook_spin_count(1000);
+            }
+            2 => {
+                p.set_revisions_algorithm_name("SHA-256").set_revisions_hash_value("cmV2").set_revisions_salt_value("c2E=").set_revisions_spin_count(5);
+            }
+            3 => {
+                p.set_workbook_password_raw("ABCD");
+            }
+            _ => {}
+        }
+    }
+    book.set_active_sheet(rng.below(n_sheets as u64) as u32);
+    // sometimes the last sheet is removed again (the active tab may have pointed at it)
+    if n_sheets > 1 && rng.chance(1, 8) {
+        let _ = book.remove_sheet(n_sheets - 1);
+    }
+}
+
+fn color_str(c: &Color) -> String {
+    format!("{:?}", c)
+}
+
+fn b(v: &bool) -> &'static str {
+    if *v { "1" } else { "0" }
+}
+
+/// one entry per annotation (or per annotation field group): `(key, value)`; the value is a
+/// `field:value` list separated by `,`; free text is hex.  Keys identify kind and position.
+pub fn annot_entries(book: &Spreadsheet) -> Vec<(String, String)> {
+    let mut e: Vec<(String, String)> = vec![];
+    let n = book.get_sheet_count();
+    e.push(("book.active".into(), book.get_workbook_view().get_active_tab().to_string()));
+    e.push(("book.sheets".into(), (0..n).map(|i| { let ws = book.get_sheet(&i).unwrap(); format!("{}:{}", hexs(ws.get_name()), state_str(ws)) }).collect::<Vec<_>>().join("|")));
+    e.push(("book.protection".into(), match book.get_workbook_protection() { Some(p) => format!("{:?}", p), None => "-".into() }));
+    // defined names: identity = (name, scope); where the object is stored (workbook / sheet) is not observable in the file
+    let mut names: Vec<(String, String)> = vec![];
+    let mut dn = |d: &DefinedName| {
+        names.push((format!("{}@{}", hexs(d.get_name()), if d.has_local_sheet_id() { d.get_local_sheet_id().to_string() } else { "~".into() }), format!("address:{},hidden:{}", hexs(&d.get_address()), b(d.get_hidden()))));
+    };
+    for d in book.get_defined_names() {
+        dn(d);
+    }
+    for i in 0..n {
+        for d in book.get_sheet(&i).unwrap().get_defined_names() {
+            dn(d);
+        }
+    }
+    names.sort();
+    let mut last = String::new();
+    let mut k = 0;
+    for (key, v) in names {
+        if key == last { k += 1; } else { k = 0; last = key.clone(); }
+        e.push((format!("name.{}#{}", key, k), v));
+    }
+    for i in 0..n {
+        let ws = book.get_sheet(&i).unwrap();
+        let p = format!("s{}", i);
+        e.push((format!("{p}.merges"), ws.get_merge_cells().iter().map(|m| m.get_range()).collect::<Vec<_>>().join(" ")));
+        e.push((format!("{p}.mergecount"), ws.get_merge_cells().len().to_string()));
+        let mut nlinks = 0;
+        for c in ws.get_cell_collection_sorted() {
+            if let Some(h) = c.get_hyperlink() {
+                nlinks += 1;
+                e.push((format!("{p}.link.{}", c.get_coordinate().get_coordinate()), format!("kind:{},target:{},tooltip:{}", if *h.get_location() { "l" } else { "e" }, hexs(h.get_url()), hexs(h.get_tooltip()))));
+            }
+        }
+        e.push((format!("{p}.linkcount"), nlinks.to_string()));
+        e.push((format!("{p}.commentcount"), ws.get_comments().len().to_string()));
+        for (k, c) in ws.get_comments().iter().enumerate() {
+            let a = c.get_anchor();
+            let cd = c.get_shape().get_client_data();
+            e.push((
+                format!("{p}.comment.{:03}", k),
+                format!(
+                    "cell:{},author:{},text:{},runs:{},anchor:{}/{}/{}/{}/{}/{}/{}/{},target:{}/{}",
+                    c.get_coordinate().get_coordinate(),
+                    hexs(c.get_author()),
+                    hexs(&c.get_text().get_text()),
+                    c.get_text().get_rich_text_elements().len(),
+                    a.get_left_column(), a.get_left_offset(), a.get_top_row(), a.get_top_offset(), a.get_right_column(), a.get_right_offset(), a.get_bottom_row(), a.get_bottom_offset(),
+                    cd.get_comment_column_target().map(|x| x.get_value().to_string()).unwrap_or("-".into()),
+                    cd.get_comment_row_target().map(|x| x.get_value().to_string()).unwrap_or("-".into()),
+                ),
+            ));
+        }
+        match ws.get_data_validations() {
+            None => e.push((format!("{p}.dvcount"), "-".into())),
+            Some(dvs) => {
+                e.push((format!("{p}.dvcount"), dvs.get_data_validation_list().len().to_string()));
+                for (k, d) in dvs.get_data_validation_list().iter().enumerate() {
+                    e.push((
+                        format!("{p}.dv.{:03}", k),
+                        format!(
+                            "type:{:?},operator:{:?},allowBlank:{},showInput:{},showError:{},promptTitle:{},prompt:{},errorTitle:{},error:{},sqref:{},formula1:{},formula2:{}",
+                            d.get_type(), d.get_operator(), b(d.get_allow_blank()), b(d.get_show_input_message()), b(d.get_show_error_message()),
+                            hexs(d.get_prompt_title()), hexs(d.get_prompt()), hexs(d.get_error_title()), hexs(d.get_error_message()),
+                            d.get_sequence_of_references().get_sqref().replace(' ', "+"), hexs(d.get_formula1()), hexs(d.get_formula2())
+                        ),
+                    ));
+                }
+            }
+        }
+        e.push((format!("{p}.cfcount"), ws.get_conditional_formatting_collection().len().to_string()));
+        for (k, f) in ws.get_conditional_formatting_collection().iter().enumerate() {
+            e.push((format!("{p}.cf.{:03}"  , k), format!("sqref:{},rules:{}", f.get_sequence_of_references().get_sqref().replace(' ', "+"), f.get_conditional_collection().len())));
+            for (j, r) in f.get_conditional_collection().iter().enumerate() {
+                let style = match r.get_style() {
+                    Some(s) => format!("{}/{}", s.get_background_color().map(|c| c.get_argb().to_string()).unwrap_or("-".into()), s.get_font().map(|f| b(f.get_bold())).unwrap_or("-")),
+                    None => "-".into(),
+                };
+                e.push((
+                    format!("{p}.cf.{:03}.rule.{:02}", k, j),
+                    format!(
+                        "type:{:?},operator:{:?},text:{},priority:{},percent:{},bottom:{},rank:{},stopIfTrue:{},stdDev:{},aboveAverage:{},equalAverage:{},timePeriod:{:?},formula:{},style:{},colorScale:{},dataBar:{},iconSet:{}",
+                        r.get_type(), r.get_operator(), hexs(r.get_text()), r.get_priority(), b(r.get_percent()), b(r.get_bottom()), r.get_rank(), b(r.get_stop_if_true()), r.get_std_dev(),
+                        b(r.get_above_average()), b(r.get_equal_average()), r.get_time_period(),
+                        r.get_formula().map(|f| hexs(&f.get_address_str())).unwrap_or("~".into()), style,
+                        r.get_color_scale().is_some(), r.get_data_bar().is_some(), r.get_icon_set().is_some()
+                    ),
+                ));
+            }
+        }
+        e.push((format!("{p}.autofilter"), ws.get_auto_filter().map(|a| a.get_range().get_range()).unwrap_or("-".into())));
+        e.push((format!("{p}.tabcolor"), ws.get_tab_color().map(color_str).unwrap_or("-".into())));
+        e.push((format!("{p}.viewcount"), ws.get_sheets_views().get_sheet_view_list().len().to_string()));
+        for (k, v) in ws.get_sheets_views().get_sheet_view_list().iter().enumerate() {
+            let pane = match v.get_pane() {
+                Some(pn) => format!("{}/{}/{}/{:?}/{:?}", pn.get_horizontal_split(), pn.get_vertical_split(), pn.get_top_left_cell().get_coordinate(), pn.get_active_pane(), pn.get_state()),
+                None => "-".into(),
+            };
+            let sels: Vec<String> = v.get_selection().iter().map(|s| format!("{:?}/{}/{}", s.get_pane(), s.get_active_cell().map(|c| c.get_coordinate()).unwrap_or("-".into()), s.get_sequence_of_references().get_sqref().replace(' ', "+"))).collect();
+            e.push((
+                format!("{p}.view.{}", k),
+                format!(
+                    "pane:{},selection:{},tabSelected:{},view:{:?},zoom:{}/{}/{}/{},topLeft:{},gridLines:{},workbookViewId:{}",
+                    pane, sels.join("+"), b(v.get_tab_selected()), v.get_view(), v.get_zoom_scale(), v.get_zoom_scale_normal(), v.get_zoom_scale_page_layout_view(), v.get_zoom_scale_sheet_layout_view(),
+                    v.get_top_left_cell(), b(v.get_show_grid_lines()), v.get_workbook_view_id()
+                ),
+            ));
+        }
+        e.push((format!("{p}.activecell"), ws.get_active_cell().to_string()));
+        let ps = ws.get_page_setup();
+        e.push((format!("{p}.pagesetup"), format!("paper:{},orientation:{:?},scale:{},fitHeight:{},fitWidth:{},hdpi:{},vdpi:{}", ps.get_paper_size(), ps.get_orientation(), ps.get_scale(), ps.get_fit_to_height(), ps.get_fit_to_width(), ps.get_horizontal_dpi(), ps.get_vertical_dpi())));
+        let m = ws.get_page_margins();
+        e.push((format!("{p}.margins"), format!("left:{},right:{},top:{},bottom:{},header:{},footer:{}", m.get_left(), m.get_right(), m.get_top(), m.get_bottom(), m.get_header(), m.get_footer())));
+        let po = ws.get_print_options();
+        e.push((format!("{p}.printoptions"), format!("hc:{},vc:{}", b(po.get_horizontal_centered()), b(po.get_vertical_centered()))));
+        let hf = ws.get_header_footer();
+        e.push((format!("{p}.headerfooter"), format!("oddHeader:{},oddFooter:{}", hexs(hf.get_odd_header().get_value()), hexs(hf.get_odd_footer().get_value()))));
+        e.push((format!("{p}.protection"), match ws.get_sheet_protection() { Some(sp) => format!("{:?}", sp).replace(", ", ",").replace(' ', "_"), None => "-".into() }));
+    }
+    e
+}
+
+/// the full annotation dump on one line
+pub fn annot_view(book: &Spreadsheet) -> String {
+    annot_entries(book).into_iter().map(|(k, v)| format!("{}={}", k, v.replace(' ', "_"))).collect::<Vec<_>>().join(";;")
+}
+
+/// every difference between two annotation dumps as (kind, field, detail); entries of a kind whose
+/// item count changed are summarised by the count entry alone
+pub fn annot_diffs(a: &[(String, String)], b: &[(String, String)]) -> Vec<(String, String, String)> {
+    use std::collections::{BTreeMap, BTreeSet};
+    let ma: BTreeMap<&String, &String> = a.iter().map(|(k, v)| (k, v)).collect();
+    let mb: BTreeMap<&String, &String> = b.iter().map(|(k, v)| (k, v)).collect();
+    let kind_of = |k: &str| -> String {
+        let parts: Vec<&str> = k.split('.').collect();
+        if parts[0] == "name" {
+            return "name".into();
+        }
+        if parts.contains(&"rule") {
+            return "cf.rule".into();
+        }
+        let sheet = parts[0].starts_with('s') && parts[0].len() > 1 && parts[0][1..].chars().all(|c| c.is_ascii_digit());
+        let k = if sheet { parts.get(1).copied().unwrap_or("?").to_string() } else { parts[0..parts.len().min(2)].join(".") };
+        k.trim_end_matches("count").to_string()
+    };
+    let keys: BTreeSet<&String> = ma.keys().chain(mb.keys()).copied().collect();
+    let mut out = vec![];
+    let mut count_changed: BTreeSet<String> = BTreeSet::new(); // "s3.comment"
+    for k in keys.iter().filter(|k| k.ends_with("count")) {
+        if ma.get(*k) != mb.get(*k) {
+            count_changed.insert(k.trim_end_matches("count").to_string());
+            out.push((kind_of(k), "count".to_string(), format!("{}: before={} after={}", k, ma.get(*k).map(|s| s.as_str()).unwrap_or("<absent>"), mb.get(*k).map(|s| s.as_str()).unwrap_or("<absent>"))));
+        }
+    }
+    for k in keys.iter().filter(|k| !k.ends_with("count")) {
+        if count_changed.iter().any(|p| k.starts_with(p.as_str())) {
+            continue;
+        }
+        match (ma.get(*k), mb.get(*k)) {
+            (Some(x), Some(y)) if x == y => {}
+            (Some(x), Some(y)) => {
+                let fx: Vec<&str> = x.split(',').collect();
+                let fy: Vec<&str> = y.split(',').collect();
+                let mut field = "value".to_string();
+                let mut cause = "other";
+                if fx.len() == fy.len() {
+                    for (p, q) in fx.iter().zip(fy.iter()) {
+                        if p != q {
+                            if p.contains(':') {
+                                field = p.split(':').next().unwrap().to_string();
+                            }
+                            // how the value changed, when it is a hex-carried text
+                            let (vp, vq) = (p.split(':').last().unwrap_or(""), q.split(':').last().unwrap_or(""));
+                            let is_hex = |t: &str| t == "-" || (t.len() % 2 == 0 && !t.is_empty() && t.chars().all(|c| c.is_ascii_hexdigit()));
+                            if is_hex(vp) && is_hex(vq) {
+                                let (tp, tq) = (String::from_utf8_lossy(&unhex(vp)).to_string(), String::from_utf8_lossy(&unhex(vq)).to_string());
+                                cause = if tq == tp.trim() { "outer-whitespace-trimmed" } else if tq.is_empty() { "emptied" } else { "other" };
+                            } else if vq.is_empty() {
+                                cause = "emptied";
+                            }
+                            break;
+                        }
+                    }
+                }
+                out.push((kind_of(k), field, format!("cause={} {}: before={} after={}", cause, k, x, y)));
+            }
+            (Some(x), None) => out.push((kind_of(k), "lost".into(), format!("{}: before={} after=<absent>", k, x))),
+            (None, Some(y)) => out.push((kind_of(k), "appeared".into(), format!("{}: before=<absent> after={}", k, y))),
+            (None, None) => {}
+        }
+    }
+    out
 }
